@@ -83,10 +83,10 @@ def pareto_campaign(rep, tier, seed):
     rep.sample({"campaign": "pareto", "call": calls[len(calls) // 2]})
 
 
-def moasha_schedules(seed, num, genlen, ntrials, vals, dim):
+def moasha_schedules(seed, num, genlen, ntrials, vals, dim, maxskip=1):
     fd, path = tempfile.mkstemp(prefix="MOASHA_Gen_", suffix=".cfg")
     os.close(fd)
-    tlc.write_cfg(path, spec="Spec", constants=dict(NTrials=ntrials, Vals=set(vals), Dim=dim, GenLen=genlen),
+    tlc.write_cfg(path, spec="Spec", constants=dict(NTrials=ntrials, Vals=set(vals), Dim=dim, GenLen=genlen, MaxSkip=maxskip),
                   action_constraints=["Emit"], constraints=["Bound"])
     try:
         r = tlc.run("MOASHA_Gen", path, workers=1, simulate=f"num={num}", depth=genlen + 2, seed=seed, timeout=300)
@@ -98,6 +98,10 @@ def moasha_schedules(seed, num, genlen, ntrials, vals, dim):
         if k not in seen:
             seen.add(k)
             out.append(g)
+    if maxskip > 1:
+        # TLC's uniform choice among successors rarely picks one of the few Complete steps: every fifth event of a
+        # sparse-reporter schedule is turned into the completion of the trial that was to report
+        out = [[({"a": "Complete", "t": h["t"]} if (i % 5 == 4 and h["a"] == "Report") else h) for i, h in enumerate(g)] for g in out]
     return out
 
 
@@ -117,9 +121,31 @@ def moasha_episode(sched_conf, schedule, rng_seed):
     modes = sched_conf["mode"] if isinstance(sched_conf["mode"], list) else [sched_conf["mode"]] * dim
     sign = [1 if m == "min" else -1 for m in modes]
     rf = Fraction(sched_conf["rf"]).limit_denominator(100)
-    calls, it, alive, trials, mine = [], {}, {}, {}, {}
+    calls, it, alive, trials, mine, who = [], {}, {}, {}, {}, {}
+    last = {}
+
+    def record(t, bidx, bracket, it_, mapped):
+        """The rung a report (or the completion) of trial t at iteration it_ is recorded at: the highest milestone of its
+        bracket <= it_ at which t is not recorded yet; tracked HERE, the scheduler's own bookkeeping is not trusted."""
+        for milestone, _ in bracket._rungs:           # descending
+            if it_ >= milestone and t not in who.get((bidx, milestone), set()):
+                who.setdefault((bidx, milestone), set()).add(t)
+                prev = list(mine.get((bidx, milestone), []))
+                mine.setdefault((bidx, milestone), []).append(mapped)
+                return milestone, prev
+        return None
+
     for h in schedule:
         t = h["t"]
+        if h["a"] == "Complete":
+            if t in trials and alive.get(t) and t in last:
+                bracket = sched._trial_info[t]
+                bidx = next(i for i, b in enumerate(sched._brackets) if b is bracket)
+                res, mapped = last[t]
+                sched.on_trial_complete(trials[t], res)
+                record(t, bidx, bracket, res["epoch"], mapped)
+                alive[t] = False
+            continue
         if t not in trials:
             if t != len(trials):
                 continue          # trial ids are issued in sequence
@@ -129,23 +155,16 @@ def moasha_episode(sched_conf, schedule, rng_seed):
             it[t], alive[t] = 0, True
         if not alive[t]:
             continue
-        it[t] += 1
+        it[t] = min(it[t] + int(h.get("skip", 1)), sched_conf["max_t"])
         bracket = sched._trial_info[t]
+        bidx = next(i for i, b in enumerate(sched._brackets) if b is bracket)
         vec = [int(x) for x in h["v"]]
         res = {"epoch": it[t]}
         res.update({m: float(v) for m, v in zip(metrics, vec)})
-        # the rung this report reaches, by the property's vocabulary: a milestone of the trial's bracket equal to the
-        # current iteration.  The vectors recorded at the rung are tracked HERE (every trial that reported at the
-        # rung, stopped or not) -- the scheduler's own bookkeeping is not trusted.
-        bidx = next(i for i, b in enumerate(sched._brackets) if b is bracket)
         mapped = [s_ * v for s_, v in zip(sign, vec)]
-        rung = None
-        for milestone, _ in bracket._rungs:
-            if it[t] == milestone:
-                key = (bidx, milestone)
-                rung = (milestone, list(mine.get(key, [])))
-                mine.setdefault(key, []).append(mapped)
-        d = sched.on_trial_result(trials[t], res)
+        rung = None if it[t] >= sched_conf["max_t"] else record(t, bidx, bracket, it[t], mapped)
+        d = sched.on_trial_result(trials[t], dict(res))
+        last[t] = (res, mapped)
         if it[t] >= sched_conf["max_t"]:
             calls.append({"f": "moasha_max", "d": d})
         elif rung is None:
@@ -171,7 +190,9 @@ def moasha_campaign(rep, tier, seed):
     n = 40 if tier == "quick" else 400
     calls = []
     for ci, sc in enumerate(confs):
-        scheds = moasha_schedules(seed * 13 + ci, n, 14 if tier == "quick" else 20, 5, (0, 1, 2), sc["dim"])
+        scheds = moasha_schedules(seed * 13 + ci, n, 14 if tier == "quick" else 20, 5, (0, 1, 2), sc["dim"], maxskip=1 + ci % 3)
+        # longer schedules with more trials, sparse reporters and completions
+        scheds += moasha_schedules(seed * 13 + ci + 50, 3 * n, 28, 8, (0, 1, 2, 3), sc["dim"], maxskip=3)
         for k, s in enumerate(scheds):
             calls.extend(moasha_episode(sc, s, seed * 1000 + k))
         rep.replays += len(scheds)
